@@ -280,3 +280,21 @@ LEVEL_TEXT += _ADD21
 _ADD22 = ' Borrowed: R14.8 / R14.9.'
 EXPLANATION += _ADD22
 LEVEL_TEXT += _ADD22
+
+
+_run_before_r5 = run
+
+
+def run(repo, rep, tier):  # noqa: F811 -- round-5 shape rules appended to the rules above
+    _run_before_r5(repo, rep, tier)
+    if getattr(rep, "borrowed", False):
+        return
+    from ..core import round5 as _r5
+    _r5.annotation_scans(repo, rep, "R09.8")
+    rep.floor("R09.8", 20)
+    _r5.metadatas_contract(repo, rep, "R09.9")
+
+
+_ADDR5B = ' Borrowed: R09.8: isinstance tests for the Annotated markers (Alias, Discriminator, JSON Schema constraints) are applied to the variable of a scan over the whole metadata sequence, so a marker is honoured at any position. R09.9 (CodeBuilder.metadatas is exactly {name: Field.metadata}).'
+EXPLANATION += _ADDR5B
+LEVEL_TEXT += _ADDR5B
